@@ -4,6 +4,7 @@ import (
 	"encoding/json"
 	"math/rand"
 	"sort"
+	"strings"
 
 	"verif/ibcsim/sim"
 )
@@ -23,7 +24,9 @@ func Lookup(prop string) *sim.Check { return registry[prop] }
 func Props() []string {
 	var out []string
 	for k := range registry {
-		out = append(out, k)
+		if !strings.Contains(k, "@") {
+			out = append(out, k)
+		}
 	}
 	sort.Strings(out)
 	return out
@@ -547,6 +550,69 @@ func init() {
 			ck.RequiredProbes = []string{"client_operation_confinement_checked"}
 			ck.Assumptions = append(ck.Assumptions, "the key-space collision-freedom half of the property over the whole identifier alphabet is an input property and is not claimed; this check decides the 'client operations stay in their namespace' half on the keys real histories produce")
 		})
+
+	coreCheck("C44",
+		"core and token worlds (handshaken v1 ordered/unordered channels, v2 clients, v2-over-alias traffic, localhost channels, ICS-20 transfers with vouchers, rate limits, async packets, packets in every lifecycle state) in which, at seeded points, a chain is hard-restarted through genesis export/import: ModuleManager.ExportGenesis on the latest state, a FRESH application started from that export with InitialHeight = height+1, then the world continues (in-flight packets are received, acknowledged and timed out by the relayers, all other oracles armed). Oracle: (a) the complete content of the ibc, transfer, ratelimiting, packetforward, icacontroller, icahost and gmp stores after the import equals the content before the export, key by key; (b) re-exporting the restarted chain gives the same genesis sections. Non-trivial case = distinct (packets so far, store size) at the export point",
+		[]string{"gexp:"}, 96, 1000,
+		func(o *CoreOptions, r *rand.Rand, tier string) {
+			if r.Intn(2) == 0 {
+				tokenOptions(o, r)
+				o.RateLimit = r.Intn(2) == 0
+				if o.RateLimit {
+					o.WRateAdm, o.GovSecs = 6, 40
+				}
+				if r.Intn(2) == 0 {
+					o.Kinds = append(o.Kinds, "v1u", "v2a", "v2")
+					o.WSend = 14
+				}
+			} else if r.Intn(2) == 0 {
+				o.Kinds = subset(r, allKinds)
+			} else {
+				// no aliased channel and distinct client ids: the restart is expected to preserve
+				// everything, so the world really continues on the restarted chain
+				o.Kinds = []string{"v1o", "v2", "loco"}
+				o.SkewIDs = true
+				o.Behaviours = []string{"ok", "ok", "fail", "async", "w1ok"}
+			}
+			if r.Intn(2) == 0 {
+				o.SkewIDs = true
+			}
+			o.WGenesis = 5
+			o.WRestart = 1
+		},
+		func(ck *sim.Check) {
+			ck.RequiredProbes = []string{"genesis_export_import_compared"}
+			ck.RequiredFaults = []string{"chain.genesis_restart"}
+		})
+
+	// history sources of C45 (not checks of their own): core and token worlds with node restarts,
+	// lost commits (crash between FinalizeBlock and Commit, block re-proposed) and genesis restarts
+	coreCheck("C45@core", "history source", nil, 1, 1,
+		func(o *CoreOptions, r *rand.Rand, tier string) {
+			o.Kinds = subset(r, allKinds)
+			o.WRestart, o.WLostCommit, o.WGenesis = 3, 6, 1
+			o.SkewIDs = true
+		}, nil)
+	coreCheck("C45@tokens", "history source", nil, 1, 1,
+		func(o *CoreOptions, r *rand.Rand, tier string) {
+			tokenOptions(o, r)
+			o.RateLimit = r.Intn(2) == 0
+			if o.RateLimit {
+				o.WRateAdm, o.GovSecs = 6, 40
+			}
+			o.WRestart, o.WLostCommit = 3, 6
+		}, nil)
+	c45 := &sim.Check{
+		Prop: "C45", Level: "exploration",
+		Rule: "histories drawn from the core, token, handshake and client worlds (with node restarts from the durable DB, lost commits re-proposing the same block, genesis export/import restarts) are executed in a first OS process at GOMAXPROCS=1 and re-executed from the recorded operation list in a second fresh process at GOMAXPROCS=16 (Go re-seeds map iteration per process); the digests must agree line by line: app hash after every block of every chain, per-module hash of the exported genesis of every chain, and keeper list queries whose order the module defines; inside a world, a block re-executed after a lost commit must give the same app hash. Non-trivial case = distinct histories (by their app-hash chain)",
+		Worlds: map[string]int{"quick": 40, "thorough": 600},
+		Assumptions: []string{"Go's map iteration seed cannot be pinned, only varied: two processes per history give two seeds; more histories give more seeds",
+			"the same binary executes both runs (different processes, thread counts and map seeds); differing compiler versions or architectures are out of scope"},
+	}
+	c45.Custom = func(o sim.RunOptions) int {
+		return sim.RunC45(c45, Lookup, []string{"C45@core", "C45@tokens", "C12", "C24", "C45@core", "C45@tokens"}, o)
+	}
+	register(c45)
 
 	coreCheck("C14",
 		"worlds with ORDERED channels and tight timeouts so that several packets are in flight when one times out; afterwards the run keeps sending, receiving, acknowledging and timing out on that channel. Oracle: after a committed timeout / timeout-on-close the sender's end is CLOSED; no later send, receive or acknowledgement on that end succeeds; timeouts of the other in-flight packets do. Non-trivial case = distinct (message kind, outcome) attempted on an end closed by a timeout",
